@@ -84,9 +84,10 @@ def gen_grammars(prop, tier, n, profile):
         st = gg.grammar_stream(rnd, want_lr1=0.9)
         while len(out) < n:
             g, tb = next(st)
-            if rnd.random() < 0.2: g = gg.add_error_rules(g, rnd)
-            g = gg.decorate(g, rnd, vtypes=False, dflt=0, strings=0.4)
-            if rnd.random() < 0.3: g = multiline_terms(g, rnd)
+            if rnd.random() < 0.45: g = gg.add_error_rules(g, rnd)
+            g = gg.decorate(g, rnd, vtypes=False, dflt=0, strings=0.5)
+            if rnd.random() < 0.6: g = multiline_terms(g, rnd)
+            if rnd.random() < 0.25: g = newline_term(g, rnd)
             if gg.classify(ref_lr1.build(g)) in ('rr', 'acc'): continue
             add(g)
     elif profile == 'verbose':    # C16
@@ -112,10 +113,23 @@ def positions_core():
     g = Grammar(['S'], [Term('s', 'A\nB'), Term('c', 'x'), Term('s', '\n\n', typed=True), Term('s', 'q\tr')],
                 [Rule(0, []), Rule(0, [('n', 0), ('t', 0)]), Rule(0, [('n', 0), ('t', 1)]), Rule(0, [('n', 0), ('t', 2)]), Rule(0, [('n', 0), ('t', 3)])], 0, note='poscore:multiline')
     out.append(g)
+    # error recovery that discards multi-line lexemes and newline terms
+    g = Grammar(['L', 'I'], [Term('c', 'x'), Term('c', ';'), Term('s', 'q\nr'), Term('c', '\n'), Term('s', '\n\nZ')],
+                [Rule(0, []), Rule(0, [('n', 0), ('n', 1)]), Rule(1, [('t', 0), ('t', 1)]), Rule(1, [('e',), ('t', 1)]), Rule(1, [('t', 0), ('t', 2), ('t', 1)]),
+                 Rule(1, [('t', 0), ('t', 3), ('t', 1)]), Rule(1, [('t', 4), ('t', 1)])], 0, note='poscore:recovery-multiline')
+    out.append(g)
     g = Grammar(['S'], [Term('c', '\r'), Term('c', '\t'), Term('c', 'x'), Term('c', ' ')],
                 [Rule(0, []), Rule(0, [('n', 0), ('t', 0)]), Rule(0, [('n', 0), ('t', 1)]), Rule(0, [('n', 0), ('t', 2)]), Rule(0, [('n', 0), ('t', 3)])], 0, note='poscore:whitespace-terms')
     out.append(g)
     return out
+
+def newline_term(g, rnd):
+    """turn one char term into the newline character (a term only when newlines are not skipped)"""
+    g = gg.clone(g)
+    cands = [j for j, t in enumerate(g.terms) if t.kind == 'c']
+    if cands and not any(t.text == '\n' for t in g.terms):
+        j = rnd.choice(cands); t = g.terms[j]; g.terms[j] = gg.Term('c', '\n', t.prec, t.assoc, None, t.typed)
+    return g
 
 def multiline_terms(g, rnd):
     g = gg.clone(g)
@@ -126,6 +140,29 @@ def multiline_terms(g, rnd):
             txt = t.text[:k] + rnd.choice(['\n', '\n\n', '\t', '\r\n']) + t.text[k:]
             if txt not in used: g.terms[j] = gg.Term('s', txt, t.prec, t.assoc, None, t.typed); used.add(txt)
     return g
+
+def deep_specs(prop, tier, modes=(0,)):
+    """inputs that drive the parse stacks beyond 65536 entries (right recursion, nesting) and very long left-recursive lists"""
+    from .grammar import simple
+    rnd = random.Random(common.seed() + 77)
+    q = tier == 'quick'
+    n1 = rnd.randint(66000, 70000) if q else rnd.randint(120000, 200000)
+    cases = [
+        ('L->a L | b', lambda n: b'a' * n + b'b', n1),
+        ('L->a L | eps', lambda n: b'a' * n, n1 + 3),
+        ('S->( S ) | a', lambda n: b'(' * n + b'a' + b')' * n, n1 // 2 + 33000),
+        ('L->L a | a', lambda n: b'a' * n, 3 * n1),
+        ('S->eps | E F G ( S )\nE->eps\nF->eps\nG->eps', lambda n: b'(' * n + b')' * n, 20000 if q else 60000),
+        ('E->T + E | T\nT->i | ( E )', lambda n: b'i+' * n + b'(i+i)', n1),
+    ]
+    specs = []
+    for i, (spec, mk, n) in enumerate(cases):
+        g = simple(spec); g.note = 'deep'
+        if i % 2 == 1: g = gg.decorate(g, rnd, strings=0, typed=0.5)
+        inputs = [mk(n), mk(n)[:-1], mk(7)]
+        specs.append({'prop': prop, 'grammars': [g.to_json()], 'seed': 1, 'flavour': 'clang1', 'cfg': {'modes': list(modes), 'timeout': 900},
+                      'explicit_inputs': [[d.hex() for d in inputs]]})
+    return specs
 
 def run_pipeline(prop, tier, grammars, cfg, per_tu=8, flavour='clang'):
     specs = []
@@ -155,6 +192,7 @@ def c02(tier):
     q = tier == 'quick'
     cfg = {'modes': [0], 'exh_cap': 200 if q else 500, 'exh_len': 5, 'n_rand': 60, 'n_mut': 40, 'long': (30, 200) if q else (100, 1000, 5000)}
     merge(ck, run_pipeline('C02', tier, gen_grammars('C02', tier, 256 if q else 3000, 'decorated'), cfg))
+    merge(ck, common.pmap(pipeline.worker, deep_specs('C02', tier)))
     ck.cov['rule'] = ('grammars as C01, decorated with mixed value types (two tracked types, long), rules without functor, typed terms, string terms; '
                       'every functor logs (rule, ids of its arguments in order) and returns a fresh id; the log of each parse is compared with the post-order '
                       'evaluation of the reference derivation tree; distinct_nontrivial = distinct accepted (grammar,input) pairs with >= 3 reductions')
